@@ -65,6 +65,7 @@ def run(ctx: Ctx, rep: Report) -> None:
     rep.rule("C18-R1", "everything the override step may write on the client is saved before and restored in a finally covering the yield", floor=3)
     rep.rule("C18-R2", "configure validates its settings before the first store to self and cannot fail after one", floor=1)
     rep.rule("C18-R3", "settings reach the sender and the message layer through attribute reads at send time", floor=5)
+    rep.rule("C18-R5", "requests issued inside an override block leave nothing behind: every store to state shared between requests is a justified, request-independent instance (shared with C14-R1)", floor=6)
     rep.rule("C18-R4", "a change of credential family installs the MPM of the new credentials", floor=3)
     rep.level = "proof"
     rep.assumptions += [
@@ -349,6 +350,7 @@ def run(ctx: Ctx, rep: Report) -> None:
         ident = credential_mpm(ctx, cls)
         ok = cls.name in want and ident == want[cls.name] and ident in plugin_ids and ident in rfc.VERSION_BY_MPM
         rep.check(ok if cls.name in want else None, "C18-R4", f"{cls.module.path}:{cls.node.lineno} ({cls.name})", f"{cls.name} credentials select message-processing model {want.get(cls.name)} (RFC 3411) which exists as a plug-in", f"mpm = {ident}; plug-ins: {sorted(i for i in plugin_ids if i is not None)}", key=f"credentials|{cls.name}|mpm-id")
+    rep.adopt_rules(ctx.sub_run("c14", rep), "C18-R5", ["C14-R1"])
 
 
 def credential_mpm(ctx: Ctx, cls: ClassInfo) -> Optional[int]:
